@@ -198,7 +198,13 @@ func findFiles(cwd string, patterns []string) (_ []sourcePath, err error) {
 		}
 
 		for _, f := range fs {
-			files[f.Absolute] = f
+			// The same file may be reached under several names, through
+			// a directory that is a symbolic link.
+			key := f.Absolute
+			if real, err := filepath.EvalSymlinks(key); err == nil {
+				key = real
+			}
+			files[key] = f
 		}
 	}
 
@@ -269,6 +275,11 @@ func (cmd *mainCmd) Run(args []string) error {
 	cwd, err := cmd.Getwd()
 	if err != nil {
 		return fmt.Errorf("getwd: %w", err)
+	}
+	// Getwd reports $PWD, which may end in a symbolic link to the
+	// directory. The directory itself is what "." stands for.
+	if real, err := filepath.EvalSymlinks(cwd); err == nil {
+		cwd = real
 	}
 
 	files, err := findFiles(cwd, opts.Args.Patterns)
